@@ -57,6 +57,12 @@ CHECKS = {
  "C20": ("exploration", "reference-model runtime monitor over generated statements + page-visit monitor on real lopdf-written PDFs",
          "Generated allocation tables in the documented layout are parsed by the real state machine and compared with the generating spec (each holding once, allocation, value, total, month). Real multi-page PDFs whose pages carry unique tokens are iterated through safe_page_chunks_with_remainder + optimized_iter in sequential and task-parallel mode under exhaustively enumerated single-group hints and random multi-group hints; every page must be yielded, no other page requested, each text must carry its own token; the pure chunk helper is also driven for page counts up to 400.",
          "PDF byte parsing is third-party; the allocation-table marker cannot be drawn with a Type1 font, so PDF-borne statements use tables without holdings.", "C20"),
+ "C18": ("exploration", "reference-model runtime monitor over generated .xlsx exports (library path + real binary)",
+         "Generated well-formed Questrade exports are written as real .xlsx files under four column layouts and converted by the real converter with option combinations; the printed CSV is compared with the spec (multiset of trade rows with exact values, ignored activities absent, signed USD.FX total = net USD cash flow, implied conversion rates, option filters), must be identical across layouts, and is fed to acb's own parser and conversion.",
+         "Numeric cells are compared exactly against the shortest decimal that round-trips the stored double, as a spreadsheet displays it.", "C18"),
+ "C19": ("exploration", "reference-model runtime monitor over generated confirmation texts (exhaustive subset accounting as oracle)",
+         "Confirmation texts generated from the checked-in samples' layouts are extracted by the real extractor under three file orders; an exhaustive subset search decides whether the output is a valid exactly-once accounting (one purchase per benefit, every confirmation consumed by one sell-to-cover within five days of its benefit or emitted once as a manual trade), whether an unmatchable set is reported rather than guessed, and order by settlement date; the output is fed to acb and a sample runs through the real binary.",
+         "Option-exercise (ESO) confirmations are not generated; texts follow the two supported trade-confirmation layouts.", "C19"),
 }
 PENDING = {}
 
